@@ -669,6 +669,15 @@ where
                 }
             };
 
+            // The address may be out of date: its block can have been reclaimed and written again while the reinsertion
+            // of the entry is still on its way. Whatever sits there now - another entry, or another copy of this very
+            // key, which would pass the key comparison - is not the entry the index means unless it carries the
+            // indexed sequence. (The index entry stays: the reinsertion will move it.)
+            if header.sequence != addr.sequence {
+                tracing::warn!(hash, ?addr, ?header, "[block engine load]: entry sequence mismatch, skip");
+                return Ok(Load::Miss);
+            }
+
             let (key, value) = {
                 let now = Instant::now();
                 let res = match EntryDeserializer::deserialize::<K, V>(
